@@ -75,6 +75,7 @@ type UnitJSON struct {
 	Func       string         `json:"func"`
 	Set        string         `json:"set,omitempty"`
 	Paths      int            `json:"paths"`
+	Unreached  []string       `json:"unreached_blocks"` // basic blocks of the unit's function that no explored path entered
 	Obls       []OblJSON      `json:"obligations"`
 	Warnings   []string       `json:"warnings,omitempty"`
 	ToolError  string         `json:"tool_error,omitempty"`
@@ -164,7 +165,7 @@ func main() {
 	e := &Engine{prog: prog, pkgs: map[string]*ssa.Package{}, inc: NewInc(), maxPaths: 20000,
 		loopHdr: map[*ssa.Function]map[*ssa.BasicBlock]int{}, loopBody: map[*ssa.BasicBlock]map[*ssa.BasicBlock]bool{},
 		bounded: *bound, trace: *trace, warnings: map[string]bool{}, havoc: map[string]bool{},
-		recFns: map[*ssa.Function]bool{}, recApps: map[string]recApp{}, recAxioms: map[string][]*Term{}, recTemplates: map[string]recApp{}, memo: map[string][]Val{},
+		recFns: map[*ssa.Function]bool{}, recApps: map[string]recApp{}, recAxioms: map[string][]*Term{}, visited: map[*ssa.BasicBlock]bool{}, recTemplates: map[string]recApp{}, memo: map[string][]Val{},
 		opaque: map[string]bool{}, depCache: map[*ssa.Function]map[string]bool{}, leafCache: map[*ssa.Function][]heapLeaf{},
 		variant: *suffix}
 	for _, o := range strings.Split(*opq, ",") {
@@ -285,6 +286,18 @@ func main() {
 	res.ExecS = t1.Sub(t0).Seconds() - res.LoadS
 	res.IncQueries, res.IncTime = e.inc.N, e.inc.T.Seconds()
 	res.Paths = e.paths
+	for _, b := range fn.Blocks {
+		if !e.visited[b] && len(b.Instrs) > 0 {
+			line := 0
+			for _, ins := range b.Instrs {
+				if p := ins.Pos(); p.IsValid() {
+					line = e.prog.Fset.Position(p).Line
+					break
+				}
+			}
+			res.Unreached = append(res.Unreached, fmt.Sprintf("b%d %s line %d", b.Index, b.Comment, line))
+		}
+	}
 	// discharge
 	var wg sync.WaitGroup
 	sem := make(chan struct{}, *jobs)
